@@ -187,8 +187,9 @@ func Decrypt(suite Suite, ciphertext []byte, anonymitySet Set, mine int, private
 	msg := make([]byte, len(ctx))
 	xof.XORKeyStream(msg, ctx)
 	xof = suite.XOF(ctx)
-	xof.XORKeyStream(mac, mac)
-	if constantTimeAllEq(mac, 0) == 0 {
+	macCheck := make([]byte, len(mac))
+	xof.XORKeyStream(macCheck, mac) // leave the caller's ciphertext untouched
+	if constantTimeAllEq(macCheck, 0) == 0 {
 		return nil, errors.New("invalid ciphertext: failed MAC check")
 	}
 	return msg, nil
